@@ -374,6 +374,8 @@ pub struct Report {
     pub assumptions: Vec<String>,
     pub violations: Vec<Violation>,
     pub sim_ms: u64,
+    /// Wall-clock seconds spent by another leg of the same check (two-leg checks).
+    pub extra_wall_s: f64,
     start: std::time::Instant,
 }
 
@@ -394,6 +396,7 @@ impl Report {
             assumptions: vec![],
             violations: vec![],
             sim_ms: 0,
+            extra_wall_s: 0.0,
             start: std::time::Instant::now(),
         }
     }
@@ -454,7 +457,7 @@ impl Report {
         for (class, (n, what)) in &known_hits {
             println!("KNOWN-FINDING: property={} class={} occurrences={} {}", self.property, class, n, what);
         }
-        let wall = self.start.elapsed().as_secs_f64();
+        let wall = self.start.elapsed().as_secs_f64() + self.extra_wall_s;
         let mut cov = Map::new();
         cov.insert("evaluations".into(), json!(self.evaluations));
         cov.insert("distinct_nontrivial".into(), json!(self.distinct.len()));
